@@ -355,7 +355,19 @@ def _controlling(b, tm, block):
 def R4_vertex(ctx):
     """C15.R4 vertex deserialiser"""
     F = ctx.F
-    ctx.rule("C15.R4", "the vertex visitor builds Vertex::new(id, x, y) from the values of the keys vertex_id, x, y respectively", floor=1)
+    ctx.rule("C15.R4", "the vertex visitor builds Vertex::new(id, x, y) from the values of the keys vertex_id, x, y respectively; the vertex table is exactly the decoded records of the vertex file, in file order (its size is the number of records, not a separately counted number of lines)", floor=2)
+    vl = [bb_ for p_, bb_ in F.bodies.items() if "network::vertex_loader::" in p_ and p_.endswith("::try_from")]
+    if not vl:
+        raise AnchorMissing("vertex loader try_from")
+    vb = vl[0]
+    oks_ = [clean(r.ret) for r in table(vb, max_paths=20000) if r.end == "return" and result_variant(r.ret) == "Ok"]
+    okt = bool(oks_)
+    for o in oks_:
+        t_ = agg_payload(o)
+        while t_[0] == "call" and len(t_[2]) == 1 and re.search(r"::into_boxed_slice$|::into_vec$|::to_vec$|Into<U>>::into$|::from$", t_[1].split("{")[0]):
+            t_ = t_[2][0]
+        okt = okt and t_[0] == "call" and t_[1].endswith("read_utils::from_csv") and t_[2][0] == ("field", ("arg", 1), "vertex_list_csv") and t_[2][1] == ("const", "bool", True)
+    ctx.check(okt, "vertex-table=decoded-records", "the vertex table is not the result of from_csv(conf.vertex_list_csv, has_headers = true) itself: a table sized or indexed otherwise exposes vertices the file does not list (or loses listed ones)", vb.where(), detail="Ok(from_csv(vertex file))")
     cands = [b for p, b in F.bodies.items() if "network::vertex::" in p and "visit_map" in p and b.kind == "assocfn"]
     if not cands:
         raise AnchorMissing("Vertex visitor visit_map")
